@@ -276,3 +276,103 @@ if __name__ == "__main__":
             if o.status != "discharged" or "-v" in sys.argv:
                 print(f"  {o.status:10s} {o.name}")
         print(gen.__name__, sum(o.status == 'discharged' for o in obs), "/", len(obs), f"{time.time()-t0:.1f}s")
+
+
+# ------------------------------------------------------------------------------------------ declarations and index arguments
+def vc_declarations():
+    """gen_typedef / gen_c_arg_from_arg / gen_c_type_from_arg: every pointer type of a declaration carries the global-memory
+    placeholder (C15); the object argument is the opaque class handle (a typedef of a qualified struct pointer)."""
+    con = _contract("gen_typedef", ["C15"])
+    it = new_interp()
+    conf = K.ConfVal(CONF_KEYS)
+    cls = K.shape_other("MetaStruct")
+    cls.attrs["_c_type"] = Atom("ClsName", role="name")
+    for st, out in it.exec_function(con, {"cls": cls, "conf": conf}):
+        ok = out is not None and out[0] == "return" and isinstance(out[1], Tmpl)
+        it.oblige(st, "post", "returns_text", z3.BoolVal(ok))
+        if ok:
+            parts = out[1].parts
+            names = [getattr(p, "name", p) for p in parts]
+            # typedef <gpumem> struct <Name>_s * <Name>;
+            it.oblige(st, "post", "typedef_of_qualified_struct_pointer",
+                      z3.BoolVal(len(parts) == 6 and names[0] == "typedef " and names[1] == "gpumem" and names[2] == " struct " and names[3] == "ClsName"
+                                 and names[4] == "_s * " and names[5] == "ClsName" or (len(parts) == 7 and names[-1] == ";" and names[1] == "gpumem")))
+    obs = list(it.obligations)
+    # arguments: pointer arguments get the qualifier; compound arguments are handles (no star)
+    con2 = _contract("gen_c_arg_from_arg", ["C15"])
+    for label, pointer, compound in (("scalar_by_value", False, False), ("pointer_to_scalar", True, False), ("compound", False, True)):
+        it2 = new_interp()
+        T = K.shape_other("MetaStruct" if compound else "NumpyScalar")
+        T.attrs["_c_type"] = Atom("CType", role="type", ends_star=False)
+        arg = SymObj("Arg", {"atype": T, "pointer": pointer, "const": False, "name": Atom("argname", role="name")})
+        arg.closed = True
+        for st, out in it2.exec_function(con2, {"arg": arg, "conf": conf}):
+            ok = out is not None and out[0] == "return" and isinstance(out[1], Tmpl)
+            it2.oblige(st, "post", f"returns_text[{label}]", z3.BoolVal(ok))
+            if ok:
+                names = [getattr(p, "name", p) for p in out[1].parts]
+                star = any(isinstance(n, str) and "*" in n for n in names)
+                it2.oblige(st, "post", f"star_iff_pointer_argument[{label}]", z3.BoolVal(star == pointer))
+                if pointer:
+                    k = [i for i, n in enumerate(names) if isinstance(n, str) and "*" in n][0]
+                    it2.oblige(st, "post", f"pointer_type_is_qualified[{label}]", z3.BoolVal("gpumem" in names[:k]))
+        obs += it2.obligations
+    for o in obs:
+        o.properties = ["C15"]
+    vc_declarations.interp = it
+    return obs, it
+
+
+def vc_index_arguments():
+    """gen_fun_kernel: the accessor declares obj, then one Int64 argument i<k> for every index consumed along the path, k = 0..N-1
+    in order (N = sum of the ranks of the index parts), then the extra arguments -- the numbering Index_get_c_offset uses.
+    Checked for every sequence of part kinds up to length 4 with ranks 1..3 (bounded in path length; the offset proof itself is unbounded)."""
+    import itertools
+
+    con = _contract("gen_fun_kernel", ["C02", "C07"])
+    obs = []
+    it = None
+    kinds = ["class", "field", "ref", "index1", "index2", "index3"]
+    for n in range(0, 4):
+        for combo in itertools.product(kinds, repeat=n):
+            it = new_interp()
+            it.class_home.update({"Arg": "xobjects/context.py", "Kernel": "xobjects/context.py"})
+            parts = []
+            want = 0
+            from pyvc.core import State
+
+            st0 = State()
+            for kd in combo:
+                if kd == "class":
+                    parts.append(K.shape_other("MetaStruct"))
+                elif kd == "field":
+                    parts.append(K.shape_field(st0))
+                elif kd == "ref":
+                    parts.append(K.shape_ref())
+                else:
+                    r = int(kd[-1])
+                    parts.append(K.shape_index(st0, r, (False,) * r))
+                    want += r
+            cls = K.shape_other("MetaStruct")
+            cls.attrs["_c_type"] = "Cls"
+            extra = SymObj("Arg", {"name": "value"})
+            lab = "-".join(combo) or "empty"
+            try:
+                for st, out in it.exec_function(con, {"cls": cls, "path": PList(parts), "action": "get", "const": True, "extra": PList([extra]), "ret": None, "add_nindex": True},
+                                                pre=list(st0.pc)):
+                    ok = out is not None and out[0] == "return" and isinstance(out[1], SymObj)
+                    it.oblige(st, "post", f"returns_kernel[{lab}]", z3.BoolVal(ok))
+                    if ok:
+                        args = out[1].attrs["args"].items
+                        names = [a.attrs.get("name") for a in args]
+                        it.oblige(st, "post", f"arguments_obj_indices_extra[{lab}]", z3.BoolVal(names == ["obj"] + [f"i{k}" for k in range(want)] + ["value"]))
+                        it.oblige(st, "post", f"index_arguments_are_int64[{lab}]", z3.BoolVal(all(a.attrs["atype"].attrs.get("_c_type") == "int64_t" for a in args[1:1 + want])))
+            except Unsupported as e:
+                vc_index_arguments.undecided = getattr(vc_index_arguments, "undecided", []) + [(lab, str(e)[:120])]
+            obs += it.obligations
+    for o in obs:
+        o.properties = ["C02", "C07"]
+    return obs, it
+
+
+_EXTRA_TARGETS = [("<gen>", _named(vc_declarations, "capi.declarations")), ("<gen>", _named(vc_index_arguments, "capi.gen_fun_kernel"))]
